@@ -841,7 +841,11 @@ class EnumSerializer(Generic[TEnum, T, T_NP], TypeSerializer[TEnum, T_NP]):
         self._enum_type = enum_type
 
     def write(self, stream: CodedOutputStream, value: TEnum) -> None:
-        self._integer_serializer.write(stream, value.value)
+        if isinstance(value, Enum):
+            self._integer_serializer.write(stream, value.value)
+        else:
+            # the field of an element of a structured array holds the underlying integer
+            self._integer_serializer.write(stream, int(value))  # type: ignore
 
     def write_numpy(self, stream: CodedOutputStream, value: T_NP) -> None:
         return self._integer_serializer.write_numpy(stream, value)
@@ -1341,7 +1345,19 @@ class RecordSerializer(TypeSerializer[T, np.void]):
         )
 
     def read_numpy(self, stream: CodedInputStream) -> np.void:
-        return cast(np.void, self._read(stream))
+        # The result becomes an element of a structured array, whose fields hold
+        # the underlying integer of an enum and NumPy time values
+        return cast(
+            np.void,
+            tuple(
+                (
+                    v.value
+                    if isinstance(v, Enum)
+                    else v.numpy_value if isinstance(v, (Time, DateTime)) else v
+                )
+                for v in self._read(stream)
+            ),
+        )
 
 
 # Only used in the header
